@@ -164,7 +164,9 @@ def execute(plan: dict) -> dict:
             raise HarnessError("epoch failed: " + res["fatal"])
         if not res.get("seam_ok"):
             raise HarnessError("entropy seam not attached (spsdk.crypto.rng does not use the simulated device)")
-        draw = res["next_draw"]
+        draw = max(res["next_draw"], draw + 1)  # unique per epoch even if the epoch drew nothing
+        if draw >= 1 << 16:
+            raise HarnessError("the history drew more than 65535 values: the per-process draw ranges would overlap")
         if os.environ.get("VERIF_C17_DEBUG"):
             print("epoch", ei, res.get("clock"), file=sys.stderr)
         n_import_draws = sum(1 for d in res["draws"] if d[2] == "import")
@@ -246,11 +248,11 @@ def execute(plan: dict) -> dict:
 
 # ----------------------------------------------------------------------------------------------
 
-NEEDS = {"sb2_config": "sb2", "fork": "sb2", "sb2": "sb2", "mbi_class": "mbi", "mbi_config": "mbi", "otfad": "otfad", "iee": "iee", "bee": "bee", "hab": "hab", "hab_rt": "habrt", "bee_config": "bee"}
+NEEDS = {"sb2_config": "sb2", "fork": "sb2", "sb2": "sb2", "mbi_class": "mbi", "mbi_config": "mbi", "otfad": "otfad", "iee": "iee", "bee": "bee", "hab": "hab", "hab_rt": "habrt", "bee_config": "bee", "iee_config": "iee"}
 
 
 def gen_op(rng: random.Random, allow_fork: bool = True) -> dict:
-    kind = rng.choice(["sb2"] * 5 + ["sb2_config"] * 2 + ["mbi_class"] * 2 + ["mbi_config"] * 2 + ["otfad"] * 3 + ["iee"] * 3 + ["bee"] * 4 + ["bee_config"] * 2 + ["hab"] * 2 + ["hab_rt"] * 2 + (["fork"] if allow_fork else []))
+    kind = rng.choice(["sb2"] * 5 + ["sb2_config"] * 2 + ["mbi_class"] * 2 + ["mbi_config"] * 2 + ["otfad"] * 3 + ["iee"] * 3 + ["bee"] * 4 + ["bee_config"] * 2 + ["iee_config"] * 2 + ["hab"] * 2 + ["hab_rt"] * 2 + (["fork"] if allow_fork else []))
     if kind == "fork":
         def sub():
             return [gen_op(rng, allow_fork=False) for _ in range(rng.randint(1, 3))]
@@ -269,6 +271,12 @@ def gen_op(rng: random.Random, allow_fork: bool = True) -> dict:
         o["explicit_iv"] = rng.random() < 0.15
         o["x"] = rng.randrange(3)
     elif kind == "mbi_config":
+        o["export"] = rng.random() < 0.3
+        o["reuse_object"] = rng.random() < 0.5
+    elif kind == "iee_config":
+        o["ctr"] = rng.random() < 0.6
+        o["variant"] = rng.choice(["implicit", "implicit", "explicit_key1"])
+        o["x"] = rng.randrange(2)
         o["export"] = rng.random() < 0.3
     elif kind == "sb2_config":
         o["reuse_config"] = rng.random() < 0.6
